@@ -14,6 +14,26 @@ import sys
 HERE = os.path.dirname(os.path.dirname(os.path.abspath(__file__)))
 
 
+# Readings under which a change does NOT break the property (earlier rounds produced such changes;
+# they are kept as negative controls, more of them teach nothing new).
+OUT_OF_SCOPE = {
+    'C01': 'changes that only matter when the caller modifies a returned block in place',
+    'C02': 'empty row selections (C01 excludes empty slices); the synthetic RandomEphysReader; NumPy '
+           'scalars on the LEFT of an operator (NumPy itself converts them before the reader sees them)',
+    'C03': 'a LOAD that fails because a subset-store file is torn / empty (the property only promises '
+           'that a torn store never yields a wrong window)',
+    'C08': 'which of two templates with exactly tied spike counts counts as dominant',
+    'C09': 'which of two templates with exactly tied spike counts counts as dominant; the optional '
+           'params.py key template_scaling',
+    'C10': 'a LOAD that fails because a subset-store file is torn / empty',
+    'C12': 'merging into an output directory that already holds a merge of a different probe set',
+    'C13': 'a LOAD that fails because a subset-store file is torn / empty',
+    'C19': 'the state of a progress reporter after one of its own listeners raised',
+    'C20': 'what the call does while the checksum is UNAVAILABLE (missing / connection error), '
+           'including checksum availability that changes in the middle of one call',
+}
+
+
 def main():
     man = json.load(open(os.path.join(HERE, 'MANIFEST.json')))
     claimed = [c['property_id'] for c in man['checks']]
@@ -37,6 +57,9 @@ def main():
                'Anchored in: ' + ', '.join(d['anchors']['files']), 'Mechanisms:']
         for mech in d['anchors'].get('mechanism', []):
             txt.append('  - %s (%s)' % (mech['name'], mech['where']))
+        if p in OUT_OF_SCOPE:
+            txt += ['', 'Out of scope (the property is read as NOT constraining these; do not build '
+                        'a change on them): ' + OUT_OF_SCOPE[p] + '.']
         txt += ['', 'Helper functions called by these mechanisms (anywhere in the library) are fair '
                     'game too.', '',
                 'Ideas ALREADY USED by earlier rounds (do something different, preferably in a '
